@@ -228,6 +228,7 @@ def run(ctx):
             break
         random_case(ctx, n, mon)
     ledger_part(ctx, mon)
+    structured_part(ctx, mon)
 
 
 def nested_aggregate(rng, qg):
@@ -364,6 +365,84 @@ def ledger_case(ctx, conn, table, key, other, mon):
                       {'statement': sel_q, 'raw': show_rows(raw, 30)})
 
 
+def structured_part(ctx, mon):
+    """Aggregates over amount / position / inventory operands with several consumers of the same values in one statement
+    (the same sum twice, first/last/count beside sum), over postings, over a sub-query column of inventories and over a
+    persistent table of inventory objects. Oracle: folds of the raw rows fetched (and deep-copied) beforehand; the source
+    rows read again afterwards are unchanged."""
+    import copy
+    from beancount.core import inventory, amount as amt, position as pos
+    from .c12 import inv_sum
+    from ..model import ModelTable
+    rng = ctx.rng('structured')
+    for i in range(ctx.pick(6, 60)):
+        if ctx.out_of_time():
+            break
+        led = ledgers.gen_ledger(rng, ntxn=rng.randint(4, ctx.pick(12, 30)))
+        conn = engine.connection(ledger=led.loaded)
+        # a persistent table whose cells ARE inventory / amount objects (handed out by reference on every scan)
+        try:
+            _, _, base = engine.run(conn, 'SELECT root(account, 1) AS g, account AS a, sum(position) AS inv, first(weight) AS w FROM #postings GROUP BY 1, 2')
+        except Exception as exc:  # noqa: BLE001
+            ctx.violation(f'c02.engine_raised.{monitors.classify_exception(exc)}', f'structured base query: {exc!r}', {'ledger': led.text})
+            continue
+        mt = ModelTable('invs', [('g', str), ('a', str), ('inv', inventory.Inventory), ('w', amt.Amount)], [tuple(r) for r in base])
+        conn.tables['invs'] = engine.harness_table(mt)
+        sources = [
+            ('#invs', 'g', 'inv', 'w'),
+            ('(SELECT root(account, 1) AS g, account AS a, sum(position) AS inv, first(weight) AS w FROM #postings GROUP BY 1, 2)', 'g', 'inv', 'w'),
+            ('(SELECT account AS g, year AS y, sum(position) AS inv, last(weight) AS w FROM #postings GROUP BY 1, 2)', 'g', 'inv', 'w'),
+            ('#postings', 'account', 'position', 'weight'),
+            ('#postings', 'currency', 'units(position)', 'cost(position)'),
+        ]
+        for src, key, x, y in sources:
+            raw_q = f'SELECT {key} AS kk, {x} AS xx, {y} AS yy FROM {src}'
+            try:
+                _, _, raw = engine.run(conn, raw_q)
+            except Exception as exc:  # noqa: BLE001
+                ctx.violation(f'c02.engine_raised.{monitors.classify_exception(exc)}', f'{raw_q}: {exc!r}', {'statement': raw_q, 'ledger': led.text})
+                continue
+            raw = copy.deepcopy([tuple(r) for r in raw])
+            groups = {}
+            for k, a, b in raw:
+                groups.setdefault(k, []).append((a, b))
+            shapes = [
+                (f'SELECT {key} AS kk, sum({x}) AS s1, sum({x}) AS s2, count({x}) AS n FROM {src} GROUP BY {key}',
+                 lambda vals: (inv_sum(a for a, _ in vals), inv_sum(a for a, _ in vals), sum(1 for a, _ in vals if a is not None))),
+                (f'SELECT {key} AS kk, first({x}) AS f, sum({x}) AS s, last({x}) AS l FROM {src} GROUP BY {key}',
+                 lambda vals: (next((a for a, _ in vals if a is not None), None), inv_sum(a for a, _ in vals), vals[-1][0])),
+                (f'SELECT {key} AS kk, sum({x}) AS s, sum({y}) AS t, first({y}) AS f, count(*) AS n FROM {src} GROUP BY {key}',
+                 lambda vals: (inv_sum(a for a, _ in vals), inv_sum(b for _, b in vals), next((b for _, b in vals if b is not None), None), len(vals))),
+                (f'SELECT {key} AS kk, last({x}) AS l, sum({x}) AS s FROM {src} GROUP BY {key} HAVING NOT empty(sum({x})) OR count(*) > 0',
+                 lambda vals: (vals[-1][0], inv_sum(a for a, _ in vals))),
+            ]
+            for text, fold in rng.sample(shapes, 3):
+                case = {'statement': text, 'ledger': led.text}
+                try:
+                    _, _, rows = engine.run(conn, text)
+                except Exception as exc:  # noqa: BLE001
+                    ctx.violation(f'c02.engine_raised.{monitors.classify_exception(exc)}', f'{text}: {exc!r}', case)
+                    continue
+                exp = [(k, *fold(vals)) for k, vals in groups.items()]
+                ctx.case((text, led.text), len(groups) >= 2)
+                ctx.count('obs.structured_aggregate_cases')
+                ctx.count('obs.structured_groups', len(groups))
+                if [tuple(r) for r in rows] != exp:
+                    bad = next((n for n, (r, e) in enumerate(zip(list(rows) + [None], exp + [None])) if r is None or e is None or tuple(r) != e), 0)
+                    ctx.violation('c02.structured_aggregate_mismatch',
+                                  f'{text}: group {bad}: engine {show(tuple(rows[bad])) if bad < len(rows) else None} ; fold of the raw rows {show(exp[bad]) if bad < len(exp) else None}', case)
+                    break
+            # the source hands out the same values afterwards
+            try:
+                _, _, again = engine.run(conn, raw_q)
+            except Exception as exc:  # noqa: BLE001
+                ctx.violation(f'c02.engine_raised.{monitors.classify_exception(exc)}', f'{raw_q}: {exc!r}', {'statement': raw_q})
+                continue
+            if [tuple(r) for r in again] != raw:
+                ctx.violation('c02.aggregation_mutates_source', f'{raw_q}: after the aggregate statements the source rows differ from the rows read before them',
+                              {'statement': raw_q, 'ledger': led.text})
+
+
 def replay(ctx, case):
     mon = monitors.install()
     label = (case or {}).get('label', '')
@@ -382,6 +461,8 @@ def finalize(merged):
         reasons.append('aggregator protocol monitor never fired')
     if c.get('obs.ledger_cases', 0) == 0:
         reasons.append('no ledger-table aggregate case executed')
+    if c.get('obs.structured_aggregate_cases', 0) == 0:
+        reasons.append('no aggregate over amounts / positions / inventories executed')
     if c.get('obs.additivity_checks', 0) == 0:
         reasons.append('no additivity check executed')
     return reasons
